@@ -86,10 +86,13 @@ fn judge_match(j: &mut Judge, exp: &model::Expect, out: &Outcome, msg: &Value, o
     match &exp.verdict {
         Verdict::Refuse(_) => {
             if out.accepted() {
+                let tag = first_tag(&exp.failing);
+                // the beyond-96-bit rounding is one root cause wherever it is met
+                let feat = if tag == "beyond96" { tag.clone() } else { format!("{}:{}", origin, tag) };
                 j.violate(
                     Prop::C03,
                     "ineligible-match-accepted",
-                    &format!("{}:{}", origin, first_tag(&exp.failing)),
+                    &feat,
                     format!("{} accepted although: {}", msg, exp.failing.join("; ")),
                 );
             }
